@@ -356,6 +356,8 @@ def run(ctx):
     for n_pilots in ((1, 2) if ctx.quick else (1, 2, 3)):
         alpha = message_alphabet(n_pilots)
         for m in alpha:
+            if m[2] == 'rpc_round' and n_pilots > 2:
+                continue      # request and reply on four sides: too many orders
             _jobs.append((n_pilots, (m,)))
         if n_pilots <= (1 if ctx.quick else 2):
             # pairs of messages: interleaved deliveries
